@@ -57,6 +57,7 @@ type obsRecord struct {
 	Ord  int        `json:"ord"`
 	Nn   int        `json:"nn"`
 	Prog string     `json:"prog"`
+	Op   string     `json:"op"` // the call observed
 }
 
 type dy struct{ n, d int } // dyadic rational
@@ -79,7 +80,7 @@ type opSpec struct {
 var recOps = []opSpec{
 	{"Neg", 1, nil}, {"Abs", 1, nil}, {"Sqrt", 1, nil}, {"Sin", 1, nil}, {"Sinh", 1, nil}, {"Cos", 1, nil},
 	{"Cosh", 1, nil}, {"Tan", 1, nil}, {"Tanh", 1, nil}, {"Exp", 1, nil}, {"Log", 1, nil}, {"Log1p", 1, nil},
-	{"Log1pExp", 1, nil}, {"Logistic", 1, nil}, {"Sigmoid", 1, nil}, {"Erf", 1, nil}, {"LogErfc", 1, nil},
+	{"Log1pExp", 1, nil}, {"Logistic", 1, nil}, {"Sigmoid", 1, nil}, {"Erf", 1, nil}, {"Erfc", 1, nil}, {"LogErfc", 1, nil},
 	{"Gamma", 1, nil}, {"Lgamma", 1, nil},
 	{"Add", 2, nil}, {"Sub", 2, nil}, {"Mul", 2, nil}, {"Div", 2, nil}, {"Pow", 2, nil}, {"Min", 2, nil}, {"Max", 2, nil},
 	{"LogAdd", 2, nil}, {"LogSub", 2, nil},
@@ -111,7 +112,7 @@ func domainOK(op string, par float64, v []float64, w []float64) bool {
 		return math.Abs(a) < 50
 	case "Log1pExp", "Logistic", "Sigmoid":
 		return math.Abs(a) < 30
-	case "Erf":
+	case "Erf", "Erfc":
 		return math.Abs(a) < 3
 	case "LogErfc":
 		return a > -3 && a < 4
@@ -356,7 +357,7 @@ func recordMain(args []string) {
 			nev++
 			tout.Put(ev)
 			rec := obsRecord{T: tr, K: nev, Inst: in, N: n, X: numStrs(m.x), Val: numStr(o.Val), Ord: o.Order,
-				Nn: o.N, Prog: progString(hist)}
+				Nn: o.N, Prog: progString(hist), Op: s.Op}
 			rec.Grad = numStrs(o.Grad)
 			for i := range o.Hess {
 				rec.Hess = append(rec.Hess, numStrs(o.Hess[i]))
